@@ -41,6 +41,7 @@ var hopKinds = []func() net.IP{
 	func() net.IP { return net.ParseIP("::ffff:203.0.113.5") },
 	func() net.IP { return net.IP{10, 1, 2, 3} }, // private: blanked by the redaction step
 	func() net.IP { return net.IP{} },            // an address slice that is empty but not nil (what some hop producers return for "no answer")
+	func() net.IP { return net.ParseIP("::") },   // the unspecified IPv6 address: sixteen zero bytes are still an address
 }
 
 var rttAlpha = []float64{0, 1e-9, 0.1, 1.5, 3, 1e6}
